@@ -219,3 +219,16 @@ Definition clstep (s : option (option (N * N))) (e : cev) : option (option (N * 
   end.
 Definition clstate (id : N) (log : cevs) : option (option (N * N)) :=
   fold_left clstep (sel id log) (Some None).
+
+(* plain runs (no environment obligations), used for the refutation witnesses *)
+Fixpoint swrun (w : sworld) (ops : list sop) : option sworld :=
+  match ops with
+  | [] => Some w
+  | o :: r => match swstep w o with Some w' => swrun w' r | None => None end
+  end.
+
+Fixpoint cwrun (w : cworld) (ops : list cop) : option cworld :=
+  match ops with
+  | [] => Some w
+  | o :: r => match cwstep w o with Some w' => cwrun w' r | None => None end
+  end.
